@@ -1385,6 +1385,140 @@ theorem C10_command_keeps_dist_and_timestamp (w : World) (top path : Str) (creat
     (k : Str) (hk : hasKey s0 k) : foreignOf s1 k = foreignOf s0 k :=
   C10_update_keeps_dist_and_timestamp w s0 s1 path o (fresh_openForUpdate w top create prof xdev s0 ho) hu k hk
 
+/-! ## The single-path update (`ManifestRecursiveLoader.update_entry_for_path`) -/
+
+/-- the invariant of the walk over the Manifests: a good state, and nothing foreign queued for removal -/
+def PInv (s0 : St) (a : PSt) : Prop := Good s0 a.st ∧ ∀ x ∈ a.toRemove, isForeign x = false
+
+theorem upEntryStep_inv (w : World) (path : Str) (hashes : Option (List Str)) (mp rel : Str) (s0 : St) (a a1 : PSt) (ie : IEntry)
+    (hie : ie ∈ s0.entriesOf mp) (hi : PInv s0 a) (h : upEntryStep w path hashes mp rel a ie = .ok a1) : PInv s0 a1 := by
+  unfold upEntryStep at h
+  split at h
+  · split at h
+    · cases h
+    · cases h; exact hi
+  · cases h; exact hi
+  · cases h; exact hi
+  · rename_i fe hni hnt hnd
+    have hff : isForeign ie.2 = false := by
+      cases hfe : ie.2 with
+      | timestamp t => exact absurd hfe (hnt t)
+      | ignore q => exact absurd hfe (hni q)
+      | file t q n c =>
+        cases t with
+        | DIST => exact absurd hfe (hnd q n c)
+        | _ => rfl
+    simp only at h
+    split at h
+    · cases h; exact hi
+    · split at h
+      · cases h
+        exact ⟨hi.1, fun x hx => by
+          rcases List.mem_append.mp hx with hx | hx
+          · exact hi.2 x hx
+          · have : x = ie.2 := by simpa using hx
+            rw [this]; exact hff⟩
+      · split at h
+        · cases h
+        · cases h
+          exact ⟨hi.1, fun x hx => by
+            rcases List.mem_append.mp hx with hx | hx
+            · exact hi.2 x hx
+            · have : x = ie.2 := by simpa using hx
+              rw [this]; exact hff⟩
+        · split at h
+          · cases h
+          · rename_i fe1 ch hre
+            cases h
+            have hf1 := refreshEntry_notForeign _ _ ie.2 fe1 _ _ _ ch hff hre
+            obtain ⟨cur, hcur, hcf⟩ := hi.1.keepN ie.1 ie.2 (entriesOf_val s0 mp ie hie) hff
+            have g1 := good_setVal a.st ie.1 fe1 hi.1.fresh (fun old ho => by rw [hcur] at ho; cases ho; exact hcf) hf1
+            have g2 := good_markUpdated _ mp g1.fresh
+            exact ⟨hi.1.trans (g1.trans g2), hi.2⟩
+
+theorem upRemoveStep_good (mp : Str) (st st1 : St) (x : Entry) (hs : Fresh st) (hx : isForeign x = false)
+    (h : upRemoveStep mp st x = .ok st1) : Good st st1 := by
+  unfold upRemoveStep at h
+  split at h
+  · rename_i r hr
+    cases h
+    exact good_removeFirstEq st _ mp x hs hx hr
+  · cases h
+
+theorem upManifestStep_good (w : World) (path : Str) (hashes : Option (List Str)) (a a1 : PSt) (kdv : Str × Str × List Entry)
+    (hs : Fresh a.st) (h : upManifestStep w path hashes a kdv = .ok a1) : Good a.st a1.st := by
+  unfold upManifestStep at h
+  split at h
+  · cases h
+  · rename_i b hb
+    have hb' : PInv a.st b :=
+      foldE_inv_mem (PInv a.st) (upEntryStep w path hashes kdv.1 kdv.2.1) (a.st.entriesOf kdv.1)
+        (fun x ie x1 hie hx hstep => upEntryStep_inv w path hashes kdv.1 kdv.2.1 a.st x x1 ie hie hx hstep)
+        { a with toRemove := [] } b ⟨Good.refl _ hs, fun x hx => by cases hx⟩ hb
+    split at h
+    · cases h; exact hb'.1
+    · split at h
+      · cases h
+      · rename_i st1 hrm
+        cases h
+        have g2 : Good b.st st1 :=
+          good_foldE_mem (fun (z : St) => z) (upRemoveStep kdv.1) b.toRemove
+            (fun z x z1 hx hz hstep => upRemoveStep_good kdv.1 z z1 x hz (hb'.2 x hx) hstep) b.st st1 hb'.1.fresh hrm
+        exact hb'.1.trans (g2.trans (good_markUpdated _ kdv.1 g2.fresh))
+
+theorem good_upAddEntry (w : World) (st st1 : St) (path : Str) (t : FTag) (hs : List Str) (mp rel : Str) (hf : Fresh st)
+    (h : upAddEntry w st path t hs mp rel = .ok st1) : Good st st1 := by
+  unfold upAddEntry at h
+  split at h
+  · cases h
+  · rename_i hnd
+    split at h
+    · cases h
+    · split at h
+      · cases h
+      · split at h
+        · cases h
+        · rename_i fe1 ch hre
+          cases h
+          have hnd1 : t ≠ .DIST := by
+            intro ht; simp [ht] at hnd
+          have hf0 : ∀ q, isForeign (.file t q 0 []) = false := by
+            intro q
+            cases t <;> first | rfl | exact absurd rfl hnd1
+          have hf1 := refreshEntry_notForeign _ _ _ fe1 _ _ _ ch (hf0 _) hre
+          have g3 := good_append st mp fe1 hf hf1
+          exact g3.trans (good_markUpdated _ mp g3.fresh)
+
+/-- **the whole of the single-path update** -/
+theorem good_updateEntryForPath (w : World) (s s1 : St) (path : Str) (t : FTag) (hashes : Option (List Str)) (hs : Fresh s)
+    (h : updateEntryForPath w s path t hashes = .ok s1) : Good s s1 := by
+  unfold updateEntryForPath at h
+  split at h
+  · cases h
+  · rename_i sl hl
+    have g1 := good_load w s sl path false true hs hl
+    split at h
+    · cases h
+    · rename_i a ha
+      have g2 : Good sl a.st :=
+        good_foldE (fun (x : PSt) => x.st) (upManifestStep w path hashes)
+          (fun x kdv x1 hx hstep => upManifestStep_good w path hashes x x1 kdv hx hstep) _ ({ st := sl } : PSt) a g1.fresh ha
+      split at h
+      · cases h; exact g1.trans g2
+      · split at h
+        · cases h
+        · split at h
+          · cases h; exact g1.trans g2
+          · exact (g1.trans g2).trans (good_upAddEntry w _ _ path t _ _ _ g2.fresh h)
+
+/-- **C10 for `update_entry_for_path`.** The single-path update keeps the DIST and TIMESTAMP entries of every loaded
+    Manifest, in order, and keeps every Manifest loaded - whatever the path, the entry type asked for and the number
+    of entries the path had (none, one, several, in one Manifest or across the chain). -/
+theorem C10_path_update_keeps_dist_and_timestamp (w : World) (s s1 : St) (path : Str) (t : FTag) (hashes : Option (List Str))
+    (hs : Fresh s) (h : updateEntryForPath w s path t hashes = .ok s1) (k : Str) (hk : hasKey s k) :
+    foreignOf s1 k = foreignOf s k ∧ hasKey s1 k :=
+  ⟨(good_updateEntryForPath w s s1 path t hashes hs h).foreign_kept k hk, (good_updateEntryForPath w s s1 path t hashes hs h).keys k hk⟩
+
 /-! ## Non-vacuity -/
 
 /-- a Manifest holding `DIST x`, `DATA x` (whose local file has vanished) and a TIMESTAMP: the update removes the
@@ -1398,6 +1532,22 @@ example :
      | .ok s => (match updateDir w0 s [] { hashes := [] } with
         | .ok s' => ((foreignOf s Prof.sManifest).length, (foreignOf s' Prof.sManifest).length, (s.entriesOf Prof.sManifest).length,
                      (s'.entriesOf Prof.sManifest).length) == (2, 2, 3, 2)
+        | .error _ => false)
+     | .error _ => false) = true := by
+  decide +kernel
+
+/-- the same Manifest with the `DATA x` line three times, file gone: the single-path update of `x` drops all three DATA
+    entries and keeps both foreign ones -/
+example :
+    let mtext : Str := [68,73,83,84,32,120,32,51,32,77,68,53,32,97,97,10,
+                        68,65,84,65,32,120,32,49,10, 68,65,84,65,32,120,32,49,10,
+                        84,73,77,69,83,84,65,77,80,32,50,48,50,48,45,48,49,45,48,49,84,48,48,58,48,48,58,48,48,90,10,
+                        68,65,84,65,32,120,32,49,10]
+    let w0 : World := ⟨.dir 1 1 [(Prof.sManifest, .file ⟨1, 74, 74, 0, [], some (.text mtext)⟩)]⟩
+    (match openForUpdate w0 Prof.sManifest false .default with
+     | .ok s => (match updateEntryForPath w0 s [120] .DATA (some []) with
+        | .ok s' => ((foreignOf s Prof.sManifest).length, (foreignOf s' Prof.sManifest).length, (s.entriesOf Prof.sManifest).length,
+                     (s'.entriesOf Prof.sManifest).length) == (2, 2, 5, 2)
         | .error _ => false)
      | .error _ => false) = true := by
   decide +kernel
